@@ -82,13 +82,15 @@ def parse(lexer):
             lexer.getPos(),
         )
     if isinstance(result, NodeReturn):
-        result = result.expression
+        result = result.expression or NodeNull(result.pos)
     elif isinstance(result, NodeBlock):
         expressions = result.expressions
         if len(expressions) > 0:
             lastexpr = expressions[-1]
             if isinstance(lastexpr, NodeReturn):
-                expressions[-1] = lastexpr.expression
+                expressions[-1] = (
+                    lastexpr.expression or NodeNull(lastexpr.pos)
+                )
     return result
 
 
